@@ -34,7 +34,7 @@ def shard_setup(obs) -> None:
 
 
 def gen_cases(tier: str, seed: int):
-    n = {"quick": 400, "thorough": 5000}[tier]
+    n = {"quick": 400, "thorough": 30000}[tier]
     maxlen = {"quick": 12, "thorough": 40}[tier]
     rng = np.random.default_rng([seed, 9])
     yield {"kind": "directed", "seed": [seed, 0]}
@@ -42,7 +42,7 @@ def gen_cases(tier: str, seed: int):
         k = zoo.SYSTEMS[i % len(zoo.SYSTEMS)]
         spec = zoo.random_sys_spec(rng, kinds=(k,), dim_range=(2, 4))
         yield {"kind": "history", "spec": spec, "length": int(rng.integers(4, maxlen + 1)), "seed": [seed, int(rng.integers(0, 2**31))]}
-    m = {"quick": 80, "thorough": 1000}[tier]
+    m = {"quick": 80, "thorough": 6000}[tier]
     for i in range(m):
         k = zoo.SYSTEMS[i % len(zoo.SYSTEMS)]
         spec = zoo.random_sys_spec(rng, kinds=(k,), dim_range=(2, 3))
